@@ -66,7 +66,7 @@ def _same_sig(plan, key):
     return any(judge.sig_key(f) == key for f in r["findings"])
 
 
-def minimise_and_write(seed, idx, finding, hashseed):
+def minimise_and_write(seed, idx, finding, hashseed, tier=None):
     key = judge.sig_key(finding)
     p = gen(seed, idx)
     small = minimise.minimise_plan(p, lambda q: _same_sig(q, key), planmod.normalize, max_tests=250)
